@@ -68,6 +68,8 @@ struct ProbeRF : public RFKickMap {
     uint32_t lastbunch() const { return _lastbunch; }
     const std::vector<meshaxis_t>& offsets() const { return _offset; }
     float syncphase() const { return _syncphase; }
+    float bl2phase() const { return _bl2phase; }
+    float angle() const { return _angle; }
     void recalc(float phase, float ampl) { _calcKick(phase, ampl); }
 };
 struct ProbeDrift : public DriftMap {
